@@ -1150,7 +1150,7 @@ func corpus(seed int64) []rescorr.Case {
 	// split off the target module: the stage after FixChoice is a fixpoint, so every link of a complete
 	// chain is applied exactly once whatever the module order, and exactly the links after a gap are
 	// reported
-	for _, c := range gen.LeftoverChains(3) {
+	for _, c := range gen.LeftoverChains(chainDepth) {
 		nsmod := map[string]string{"urn:t": "t"}
 		var augs []cAug
 		for _, l := range c.Links {
@@ -1230,6 +1230,9 @@ func shapeOf(i int) int {
 	return shape
 }
 
+// chainDepth: longest chain of gen.LeftoverChains in the corpus (4 in the thorough tier).
+var chainDepth = 3
+
 func main() {
 	f := lib.ParseFlags()
 	if lib.IsChild() {
@@ -1241,6 +1244,9 @@ func main() {
 		return
 	}
 	res := lib.NewResult("C07", f)
+	if f.Thorough() {
+		chainDepth = 4
+	}
 	n := 3600
 	if f.Thorough() {
 		n = 120000
